@@ -10,15 +10,18 @@
 (***************************************************************************)
 EXTENDS HpkeSchedule
 
-NewCtx(role, suite, km) ==
+\* `origin` is a ghost field: the parameters the context was created from (no step reads it)
+NewCtx(role, suite, km, origin) ==
     [role |-> role, suite |-> suite, key |-> km.key, bn |-> km.bn, exp |-> km.exp,
-     seq |-> Seq0, ovf |-> FALSE]
+     seq |-> Seq0, ovf |-> FALSE, origin |-> origin]
 
 AeadOf(st)   == st.suite[3]
 IsExportOnly(st) == AeadOf(st) = AEAD_EXPORT
 
-\* the ideal AEAD: ciphertext body and tag are free terms over (aead, key, nonce, aad, pt)
-AeadCt(a, key, nonce, aad, pt)  == T(<<"aeadct", a, key, nonce, aad, pt>>, BLen(pt))
+\* the ideal AEAD: ciphertext body and tag are free terms.  For the three RFC 9180 AEADs the body
+\* is pt XOR keystream(key, nonce) - it does not depend on the aad - so the body term omits it
+\* (otherwise equal byte strings would have unequal terms); the tag depends on everything.
+AeadCt(a, key, nonce, pt)       == T(<<"aeadct", a, key, nonce, pt>>, BLen(pt))
 AeadTag(a, key, nonce, aad, pt) == T(<<"aeadtag", a, key, nonce, aad, pt>>, Nt(a))
 
 NonceOf(st) == ComputeNonce(AeadOf(st), st.bn, st.seq)
@@ -45,7 +48,7 @@ SealStep(st, pt, aad) ==
     THEN [kind |-> "panic", err |-> "", ct |-> <<>>, tag |-> <<>>, touched |-> FALSE, st |-> st]
     ELSE LET a == AeadOf(st) n == NonceOf(st)
          IN  [kind |-> "ok", err |-> "", touched |-> TRUE,
-              ct  |-> AeadCt(a, st.key, n, aad, pt),
+              ct  |-> AeadCt(a, st.key, n, pt),
               tag |-> AeadTag(a, st.key, n, aad, pt),
               st  |-> AdvanceSeq(st)]
 
@@ -73,7 +76,7 @@ OpenStep(st, body, tag, aad) ==
     ELSE IF IsExportOnly(st)
     THEN [kind |-> "panic", err |-> "", pt |-> <<>>, touched |-> FALSE, st |-> st]
     ELSE IF TagMatches(st, aad, tag)
-            /\ body = AeadCt(AeadOf(st), st.key, NonceOf(st), aad, PtOfTag(tag))
+            /\ body = AeadCt(AeadOf(st), st.key, NonceOf(st), PtOfTag(tag))
     THEN [kind |-> "ok", err |-> "", pt |-> PtOfTag(tag), touched |-> TRUE, st |-> AdvanceSeq(st)]
     ELSE [kind |-> "err", err |-> E_OPEN, pt |-> <<>>, touched |-> TRUE, st |-> st]
 
